@@ -23,18 +23,18 @@ import (
 
 // NodeSpec describes one scripted node of a scenario.
 type NodeSpec struct {
-	Kind            string `json:"kind"` // honest | laggard | forker | forbidden | badcheckpoint
-	Lag             int    `json:"lag,omitempty"`             // laggard: blocks behind the honest tip
-	ForkAt          int    `json:"fork_at,omitempty"`         // forker: height of the fork point on the honest chain
-	ForkLen         int    `json:"fork_len,omitempty"`        // forker: length of its own (lighter) branch
-	Cap             int    `json:"cap,omitempty"`             // reply cap (0 = 2000)
+	Kind            string `json:"kind"`               // honest | laggard | forker | forbidden | badcheckpoint
+	Lag             int    `json:"lag,omitempty"`      // laggard: blocks behind the honest tip
+	ForkAt          int    `json:"fork_at,omitempty"`  // forker: height of the fork point on the honest chain
+	ForkLen         int    `json:"fork_len,omitempty"` // forker: length of its own (lighter) branch
+	Cap             int    `json:"cap,omitempty"`      // reply cap (0 = 2000)
 	DisconnectAtMsg int    `json:"disconnect_at_msg,omitempty"`
-	Silent          bool   `json:"silent,omitempty"`          // never answers getheaders (stall)
-	Inbound         bool   `json:"inbound,omitempty"`         // node dials the service instead of being dialled
-	ForbiddenAt     int    `json:"forbidden_at,omitempty"`    // forbidden: height at which its chain carries the forbidden header
-	BadAt           int    `json:"bad_at,omitempty"`          // badcheckpoint: checkpoint height at which its chain differs
+	Silent          bool   `json:"silent,omitempty"`       // never answers getheaders (stall)
+	Inbound         bool   `json:"inbound,omitempty"`      // node dials the service instead of being dialled
+	ForbiddenAt     int    `json:"forbidden_at,omitempty"` // forbidden: height at which its chain carries the forbidden header
+	BadAt           int    `json:"bad_at,omitempty"`       // badcheckpoint: checkpoint height at which its chain differs
 	MaxAccepts      int    `json:"max_accepts,omitempty"`
-	MaxLive         int    `json:"max_live,omitempty"` // at most n simultaneous connections (1 = "a single connection")
+	MaxLive         int    `json:"max_live,omitempty"`       // at most n simultaneous connections (1 = "a single connection")
 	NoDescendants   bool   `json:"no_descendants,omitempty"` // forbidden: the forbidden header is the last of the node's chain
 }
 
@@ -47,34 +47,35 @@ type AnnounceSpec struct {
 
 // Scenario is a complete, replayable P2P scenario.
 type Scenario struct {
-	ID                 string         `json:"id"`
-	Seed               int64          `json:"seed"`
-	Engine             string         `json:"engine"` // legacy | exp
-	DisableCheckpoints bool           `json:"disable_checkpoints,omitempty"`
-	CheckpointHeights  []int32        `json:"checkpoint_heights"`
-	HonestLen          int            `json:"honest_len"`
-	InitialStore       string         `json:"initial_store"` // genesis | prefix | stale-fork | lighter-fork
-	PrefixLen          int            `json:"prefix_len,omitempty"`
-	Nodes              []NodeSpec     `json:"nodes"`
-	Announce           []AnnounceSpec `json:"announce,omitempty"`
-	BanDurationMs      int            `json:"ban_duration_ms,omitempty"`
-	WaitReconnect      bool           `json:"wait_reconnect,omitempty"` // after a scripted disconnect wait until the service dialled again
-	Readers            int            `json:"readers,omitempty"`        // C15: concurrent HTTP readers while the scenario runs
-	Churn              bool           `json:"churn,omitempty"`          // C15: nodes disconnect/reconnect while announcing
-	BadFirst           bool           `json:"bad_first,omitempty"`      // misbehaving nodes are the only reachable ones until they have been dealt with
+	ID                  string         `json:"id"`
+	Seed                int64          `json:"seed"`
+	Engine              string         `json:"engine"` // legacy | exp
+	DisableCheckpoints  bool           `json:"disable_checkpoints,omitempty"`
+	CheckpointHeights   []int32        `json:"checkpoint_heights"`
+	HonestLen           int            `json:"honest_len"`
+	InitialStore        string         `json:"initial_store"` // genesis | prefix | stale-fork | lighter-fork
+	PrefixLen           int            `json:"prefix_len,omitempty"`
+	Nodes               []NodeSpec     `json:"nodes"`
+	Announce            []AnnounceSpec `json:"announce,omitempty"`
+	BanDurationMs       int            `json:"ban_duration_ms,omitempty"`
+	WaitReconnect       bool           `json:"wait_reconnect,omitempty"`         // after a scripted disconnect wait until the service dialled again
+	Readers             int            `json:"readers,omitempty"`                // C15: concurrent HTTP readers while the scenario runs
+	Churn               bool           `json:"churn,omitempty"`                  // C15: nodes disconnect/reconnect while announcing
+	SlowConvergeWaitSec int            `json:"slow_converge_wait_sec,omitempty"` // timer-driven convergence (sync-peer rotation): poll this long before the verdict
+	BadFirst            bool           `json:"bad_first,omitempty"`              // misbehaving nodes are the only reachable ones until they have been dealt with
 }
 
 // Result is what the scenario child reports.
 type Result struct {
-	ID            string            `json:"id"`
-	Verdict       string            `json:"verdict"` // held | violated | inconclusive
-	Sig           string            `json:"sig,omitempty"`
-	What          string            `json:"what,omitempty"`
-	Counters      map[string]int64  `json:"counters"`
-	Events        []Event           `json:"events,omitempty"`
-	GetHeaders    []GetHeadersShape `json:"getheaders,omitempty"`
-	Violations    []Finding         `json:"violations,omitempty"`
-	Panic         string            `json:"panic,omitempty"`
+	ID         string            `json:"id"`
+	Verdict    string            `json:"verdict"` // held | violated | inconclusive
+	Sig        string            `json:"sig,omitempty"`
+	What       string            `json:"what,omitempty"`
+	Counters   map[string]int64  `json:"counters"`
+	Events     []Event           `json:"events,omitempty"`
+	GetHeaders []GetHeadersShape `json:"getheaders,omitempty"`
+	Violations []Finding         `json:"violations,omitempty"`
+	Panic      string            `json:"panic,omitempty"`
 }
 
 // Finding is one violated expectation inside a scenario.
@@ -92,10 +93,10 @@ type GetHeadersShape struct {
 
 // World is the materialised block tree of a scenario.
 type World struct {
-	Honest    []refmodel.Hdr            // honest chain, index i = height i+1 (grows with announcements)
-	Chains    [][]refmodel.Hdr          // per node best chain
+	Honest    []refmodel.Hdr   // honest chain, index i = height i+1 (grows with announcements)
+	Chains    [][]refmodel.Hdr // per node best chain
 	Forbidden *refmodel.Hdr
-	Height    map[refmodel.Hash]int32   // every block of the tree -> height
+	Height    map[refmodel.Hash]int32 // every block of the tree -> height
 	Parent    map[refmodel.Hash]refmodel.Hash
 	Work      map[refmodel.Hash]float64 // not used for verdicts
 	rng       *rand.Rand
@@ -507,6 +508,12 @@ func Execute(s *Scenario, dir string) (res *Result) {
 		if !x.waitFor(func() bool { return len(x.nodes[0].Live()) > 0 }, 75*time.Second) {
 			res.Verdict, res.What = "inconclusive", "the service did not connect to the honest node within 75 s"
 			res.Events = x.rig.Log.Tail(40)
+			var sb strings.Builder
+			_ = pprof.Lookup("goroutine").WriteTo(&sb, 1)
+			res.Panic = sb.String()
+			if len(res.Panic) > 60000 {
+				res.Panic = res.Panic[:60000]
+			}
 			return
 		}
 		x.count("waited_for_honest_connection", 1)
@@ -636,6 +643,16 @@ func (x *runner) quiesce(stage string) bool {
 
 // checkConverged: the store holds every header of the honest chain and the tip is the honest tip.
 func (x *runner) checkConverged() {
+	if x.s.SlowConvergeWaitSec > 0 {
+		want := x.w.Honest[len(x.w.Honest)-1].HashOf().String()
+		if x.waitFor(func() bool {
+			t := x.st.Svc.Headers.GetTip()
+			return t != nil && t.Hash.String() == want
+		}, time.Duration(x.s.SlowConvergeWaitSec)*time.Second) {
+			x.count("slow_convergence_observed", 1)
+		}
+		_ = x.rig.Quiesce(x.st, x.eng, barrierWatchdog)
+	}
 	t, err := snap.TakeHeaders(x.st.DB)
 	if err != nil {
 		x.res.Verdict, x.res.What = "inconclusive", "snapshot failed: "+err.Error()
